@@ -189,8 +189,9 @@ Print Assumptions C09_h2_reachable_snapshot_ok.
 
 (* ---------- HTTP/3: connection cache (Model/H3Cache.v) ---------- *)
 
+(* useCount = number of requests holding the cached connection (never negative) *)
 Theorem C09_h3_usecount : forall evs cl, let s := h3_run evs in
-  cl_use s cl = Z.of_nat (length (cl_users s cl) + cl_leak s cl) /\
+  cl_use s cl = Z.of_nat (length (cl_users s cl)) /\
   NoDup (cl_users s cl) /\
   (forall q, In q (cl_users s cl) <-> (q_phase s q = Q3Wait cl \/ q_phase s q = Q3Run cl)).
 Proof. exact h3_usecount. Qed.
@@ -210,7 +211,7 @@ Proof. exact h3_one_client_per_host. Qed.
 Print Assumptions C09_h3_one_client_per_host.
 
 Theorem C09_h3_reachable_snapshot_ok : forall evs hs n, let s := h3_run evs in
-  (forall cl, cl_leak s cl = 0) -> (forall cl, length (cl_users s cl) <= n) ->
+  (forall cl, length (cl_users s cl) <= n) ->
   h3snap_ok n (map (fun h => match clients s h with Some cl => cl_use s cl | None => 0%Z end) hs) = true.
 Proof. exact h3_reachable_snapshot_ok. Qed.
 Print Assumptions C09_h3_reachable_snapshot_ok.
@@ -225,7 +226,7 @@ Example C09_h2_h3_nonvacuous :
   let s := h2_run evs in
   r_phase s 1 = ROpen 0 3 /\ r_phase s 2 = ROpen 0 5 /\ r_recv s 0 = [bs "a"] /\ r_recv s 1 = [bs "b"] /\
   n_call s = 1 /\ p_conns s 4 = [0] /\ c_closed s 0 = false /\ c_hist s 0 = [5; 3; 1] /\
-  let t := h3_run [E3Get 2; E3CloseIdle; E3DialDone 0 true; E3Proceed 0; E3CloseIdle;
+  let t := h3_run [E3Get 2; E3CloseIdle; E3DialDone 0 true; E3Proceed 0 false; E3CloseIdle;
                    E3Finish 0 true false] in
   clients t 2 = Some 0 /\ cl_closed t 0 = false /\ cl_use t 0 = 0%Z /\
   cl_closed (h3_step t E3CloseIdle) 0 = true /\ clients (h3_step t E3CloseIdle) 2 = None.
